@@ -6,6 +6,8 @@
    `FV x` the value freeze found for x, `resl` the names freeze resolved.
 
      prot0         the protected cells: variables named like a resolved name, in pre-existing frames
+     mutl          outer variables that may hold unrelated values in the two stores (see srel);
+                   an identifier that is kept must not be one of them
      fzr P D B e e'  e' is e with some occurrences of identifiers x (P x, x not in B) replaced by
                    EFrozen (FV x), and some constant lists / negations folded; B is threaded exactly as
                    `freeze` threads its bound set; D over-approximates the names that the enclosing
@@ -43,6 +45,9 @@ Section Rel.
   Variable n0 cur0 : nat.
   Variable FV : name -> option val.
   Variable resl : list name.
+  (* the outer variables whose cells may differ arbitrarily between the two stores (reassigned
+     between the freeze and the use of the frozen code); empty for plain preservation *)
+  Variable mutl : list name.
 
   Definition prot0 : protection := fun g x => Nat.ltb g n0 && mem x resl.
 
@@ -53,7 +58,7 @@ Section Rel.
   | FNull P D B : fzr P D B ENull ENull
   | FInt P D B z : fzr P D B (EInt z) (EInt z)
   | FStr P D B s : fzr P D B (EStr s) (EStr s)
-  | FVarKeep P D B x : fzr P D B (EVar x) (EVar x)
+  | FVarKeep P D B x : mem x mutl = false -> fzr P D B (EVar x) (EVar x)
   | FVarRepl P D B x v : P x -> mem x B = false -> FV x = Some v -> fzr P D B (EVar x) (EFrozen v)
   | FUnd P D B : fzr P D B EUnderscore EUnderscore
   | FFrozen P D B v : noclos v = true -> fzr P D B (EFrozen v) (EFrozen v)
@@ -142,7 +147,7 @@ Section Rel.
   | VRcons v v' l l' : vrel fs v v' -> vrels fs l l' -> vrels fs (v :: l) (v' :: l').
 
   Definition vars_rel (fs : list frame) (l l' : list (name * val)) : Prop :=
-    Forall2 (fun a a' => fst a = fst a' /\ vrel fs (snd a) (snd a')) l l'.
+    Forall2 (fun a a' => fst a = fst a' /\ (mem (fst a) mutl = true \/ vrel fs (snd a) (snd a'))) l l'.
 
   Definition frame_rel (fs : list frame) (fr fr' : frame) : Prop :=
     parent fr = parent fr' /\ vars_rel fs (vars fr) (vars fr').
